@@ -60,7 +60,8 @@ def menu(tier):
                 scn.append(S.mk(f'{inp}/adversarial/A2/{strat}/j{j}/{ms}',
                                 inp, ('adversarial', ), strat, j,
                                 S.MUTATOR_SETS[ms], budget=0, accept=2))
-            if tier == 'thorough' or (inp, ms) != ('micro2', 'core'):
+            if tier == 'thorough' or ((inp, ms) != ('micro2', 'core')
+                                      and strat != 'hybrid'):
                 scn.append(S.mk(f'{inp}/adversarial/A1s1/{strat}/j2/{ms}',
                                 inp, ('adversarial', ), strat, 2,
                                 S.MUTATOR_SETS[ms], budget=1, accept=1))
@@ -112,7 +113,7 @@ def conformance(tier):
                     scns.append(S.mk(f'real/{inp}/{strat}/j{j}', inp, model,
                                      strat, j, S.MUTATOR_SETS[ms]))
         if tier != 'thorough':
-            scns = scns[rep.seed % 2::2]
+            scns = scns[rep.seed % 3::3]
         conform.jn_conformance(rep, scns)
     return extra
 
